@@ -52,6 +52,8 @@ impl Type {
         match (self, other) {
             (Self::Uninitialized, _) | (_, Self::Uninitialized) => true,
             (Self::Any, _) | (_, Self::Any) => true,
+            // a type that could not be inferred must not be reported as a mismatch
+            (Self::Unknown, _) | (_, Self::Unknown) => true,
             // 0,1以外の値の場合はエラーを出す必要がある
             (Self::Int, Self::Bit) | (Self::Bit, Self::Int) => true,
             // 指定されたビット幅でIntを表現できない場合はエラーを出す必要がある
